@@ -74,10 +74,56 @@ func runHistoryFrom(c *core.Ctx, r *core.Result, ho histOpt, cur *tree.Tree, edi
 		os.Lchown(dest, 1234, 1234)
 	}
 	var out []roundObs
+	// entries whose names look like the writer's own temporary names
+	// (".tmp." + nine digits): ordinary entries as far as the protocol and
+	// the callback go; they leave the source again in a later round
+	tr := core.NewRand(core.Mix(c.Seed, "hist-temp-like-names", c.Index))
+	var tempLike []string
+	if tr.P(1, 8) {
+		for _, d := range append([]string{""}, dirsOf(cur)...) {
+			if !tr.P(1, 2) {
+				continue
+			}
+			p := ".tmp." + core.Pick(tr, []string{"123456789", "000000042", "999999999"})
+			if d != "" {
+				p = d + "/" + p
+			}
+			if cur.Get(p) != nil {
+				continue
+			}
+			var own uint32
+			if ho.Unpriv {
+				own = 1234
+			}
+			if tr.P(1, 2) {
+				cur.Put(tree.Entry{Path: p, Type: tree.File, Perm: 0644, UID: own, GID: own, Mtime: 1600000000_000000000, Data: []byte("an ordinary file")})
+			} else {
+				cur.Put(tree.Entry{Path: p, Type: tree.Dir, Perm: 0755, UID: own, GID: own, Mtime: 1600000000_000000000})
+				cur.Put(tree.Entry{Path: p + "/x", Type: tree.File, Perm: 0600, UID: own, GID: own, Mtime: 1600000000_000000000, Data: []byte("x")})
+			}
+			tempLike = append(tempLike, p)
+		}
+		cur.Sort()
+		fixGroups(cur)
+		if len(tempLike) > 0 {
+			r.Count("histories_with_temp_like_names", 1)
+		}
+	}
 	for round := 0; round <= ho.Rounds; round++ {
 		ro := roundObs{}
 		if round > 0 {
 			unchanged := ho.Unchanged && round == ho.Rounds
+			if !unchanged && editFn == nil && len(tempLike) > 0 && tr.P(1, 2) {
+				for _, p := range tempLike {
+					if cur.Get(p) != nil {
+						removePath(cur, p)
+						ro.Edits = append(ro.Edits, "remove "+p)
+					}
+				}
+				tempLike = nil
+				cur.Sort()
+				fixGroups(cur)
+			}
 			if !unchanged {
 				n := R.Range(1, 6)
 				if ho.Targeted && R.P(1, 3) {
@@ -88,7 +134,7 @@ func runHistoryFrom(c *core.Ctx, r *core.Result, ho histOpt, cur *tree.Tree, edi
 					cur.Sort()
 					fixGroups(cur)
 				} else {
-					ro.Edits = mutate(R, cur, n, ho.EditOpt)
+					ro.Edits = append(ro.Edits, mutate(R, cur, n, ho.EditOpt)...)
 				}
 			} else {
 				ro.Edits = []string{"(no edits)"}
